@@ -84,7 +84,7 @@ Definition pool_compile_accepts (k s p : Z) (dims : list Z) : bool :=
   ((0 <? k) && (0 <? s) && ((0 <=? 2 * p) && (2 * p <=? k)) && forallb (fun n => n + 2 * p >=? k) dims)%Z.
 
 (* ---------- CompiledLogicNet.forward: the sample layout.  declared = input_shape, shape = x.shape,
-   leading_flatten: the model starts with Flatten (or is a loaded handle, whose layers are unknown) *)
+   leading_flatten: the model is known to start with Flatten (a loaded handle knows its declared shape only: false) *)
 Definition prodn (l : list nat) : nat := fold_right Nat.mul 1 l.
 Definition list_eqb_nat (a b : list nat) : bool := (length a =? length b) && forallb (fun '(x, y) => x =? y) (combine a b).
 Definition compiled_forward_domain (declared : list nat) (leading_flatten : bool) (shape : list nat) : bool :=
